@@ -120,12 +120,26 @@ def check_props(module, timeout=600):
     missing = [t for t in theorems if t not in printed]
     if missing:
         raise CoqError(f"{module}: theorems without Print Assumptions: {missing}")
-    lk = _lock()
-    try:
-        r = subprocess.run(["coqc", "-Q", ".", "MV", module + ".v"], cwd=COQ, stdout=subprocess.PIPE,
-                           stderr=subprocess.STDOUT, text=True, timeout=timeout)
-    finally:
-        lk.close()
+    # the compiled Prop_<ID>.vo (built by `make`, i.e. every theorem is proved) is loaded and asked for the
+    # assumptions of every theorem it states
+    vo = os.path.join(COQ, module + ".vo")
+    if not os.path.exists(vo) or os.path.getmtime(vo) < os.path.getmtime(path):
+        lk = _lock()
+        try:
+            r0 = subprocess.run(["coqc", "-Q", ".", "MV", module + ".v"], cwd=COQ, stdout=subprocess.PIPE,
+                                stderr=subprocess.STDOUT, text=True, timeout=timeout)
+        finally:
+            lk.close()
+        if r0.returncode != 0:
+            raise CoqError(f"{module} does not compile:\n" + r0.stdout[-3000:])
+    d = os.path.join(BUILD, "assumptions", f"{module}.{os.getpid()}")
+    os.makedirs(d, exist_ok=True)
+    fn = os.path.join(d, "Assumptions_" + module + ".v")
+    with open(fn, "w") as f:
+        f.write(f"From MV Require Import {module}.\n" + "".join(f"Print Assumptions {module}.{t}.\n" for t in printed))
+    r = subprocess.run(["coqc", "-Q", COQ, "MV", fn], cwd=d, stdout=subprocess.PIPE, stderr=subprocess.STDOUT,
+                       text=True, timeout=timeout)
+    shutil.rmtree(d, ignore_errors=True)
     if r.returncode != 0:
         raise CoqError(f"{module} does not compile:\n" + r.stdout[-3000:])
     # split the output into one block per Print Assumptions
